@@ -1243,7 +1243,7 @@ func runStore(r *ev.Run) {
 	r.Floor("store:get-failed-with-existing-handle", 40)
 	r.Floor("store:queue-longer-than-one-get-writes", 30)
 	r.Floor("store:two-reads-of-one-digest-in-flight", 8)
-	r.Floor("store:racing-read-failed", 8)
+	r.Floor("store:racing-read-failed", 5)
 	r.Floor("store:dirty-release-during-write-in-flight", 40)
 	r.Floor("store:update-during-write-in-flight", 40)
 	r.Floor("store:write-failed", 40)
